@@ -91,7 +91,12 @@ def gated_recursions(facts, f):
             c = callee(r[1]) or ""
             if c == f.path:
                 continue  # short-circuit on an earlier recursive result
-            if not any(a[0] in ("cp", "mv") and "ExprNodeId" in f.local_ty(a[1][0]) for a in r[1][5]):
+            looks_at_expr = any(a[0] in ("cp", "mv") and "ExprNodeId" in f.local_ty(a[1][0]) for a in r[1][5])
+            # or any other predicate of the workspace about a part of the node (the pattern a `let` binds, a type):
+            # the search is then pruned by a criterion that is not the question being asked
+            g = facts.fn(c)
+            other_pred = g is not None and g.crate == f.crate and (g.d.get("locals") or [""])[0] == "bool"
+            if not (looks_at_expr or other_pred):
                 continue
             # which edge leads to the recursive call?  only the "must be true/false to recurse" shape matters
             out.append((t, c))
